@@ -19,7 +19,7 @@ struct verif_ghost __verif_g;
 
 #define NCODE 5
 #ifndef SER_SHAPE
-#define SER_SHAPE 7
+#define SER_SHAPE 31   /* bit mask: 1 strings, 2 code, 4 function entry, 8 debug entry, 16 import */
 #endif
 static char s0[3]; static uint8_t code[NCODE]; static NvmFunctionEntry fn; static uint32_t dbg_off, dbg_line, imn, ifn; static uint8_t pt[2], irt;
 static NvmModule *build_module(void)
@@ -34,13 +34,17 @@ static NvmModule *build_module(void)
 #if SER_SHAPE & 2
     for (int i = 0; i < NCODE; i++) code[i] = nondet_u8();
     nvm_append_code(m, code, NCODE);
+#endif
+#if SER_SHAPE & 4
     fn.name_idx = nondet_u32(); fn.arity = nondet_u16(); fn.code_offset = nondet_u32(); fn.code_length = nondet_u32();
     fn.local_count = nondet_u16(); fn.upvalue_count = nondet_u16();
     nvm_add_function(m, &fn);
 #endif
-#if SER_SHAPE & 4
+#if SER_SHAPE & 8
     dbg_off = nondet_u32(); dbg_line = nondet_u32();
     nvm_add_debug_entry(m, dbg_off, dbg_line);
+#endif
+#if SER_SHAPE & 16
     pt[0] = nondet_u8(); pt[1] = nondet_u8();
     imn = nondet_u32(); ifn = nondet_u32(); irt = nondet_u8();
     nvm_add_import(m, imn, ifn, 2, irt, pt);
@@ -88,19 +92,27 @@ void h_ser_rt(void)
     __CPROVER_assert(r->code_size == NCODE, "C10.rt code size");
     uint32_t c = nondet_u32(); __CPROVER_assume(c < NCODE);
     __CPROVER_assert(r->code[c] == code[c], "C10.rt code byte c");
+#else
+    __CPROVER_assert(r->code_size == 0, "C10.rt no code");
+#endif
+#if SER_SHAPE & 4
     __CPROVER_assert(r->function_count == 1 && r->functions[0].name_idx == fn.name_idx && r->functions[0].arity == fn.arity &&
                      r->functions[0].code_offset == fn.code_offset && r->functions[0].code_length == fn.code_length &&
                      r->functions[0].local_count == fn.local_count && r->functions[0].upvalue_count == fn.upvalue_count, "C10.rt function entry");
 #else
-    __CPROVER_assert(r->code_size == 0 && r->function_count == 0, "C10.rt no code, no functions");
+    __CPROVER_assert(r->function_count == 0, "C10.rt no functions");
 #endif
-#if SER_SHAPE & 4
+#if SER_SHAPE & 8
     __CPROVER_assert(r->debug_count == 1 && r->debug_entries[0].bytecode_offset == dbg_off && r->debug_entries[0].source_line == dbg_line, "C10.rt debug entry");
+#else
+    __CPROVER_assert(r->debug_count == 0, "C10.rt no debug entries");
+#endif
+#if SER_SHAPE & 16
     __CPROVER_assert(r->import_count == 1 && r->imports[0].module_name_idx == imn && r->imports[0].function_name_idx == ifn &&
                      r->imports[0].param_count == 2 && r->imports[0].return_type == irt &&
                      r->import_param_types[0] != NULL && r->import_param_types[0][0] == pt[0] && r->import_param_types[0][1] == pt[1], "C10.rt import entry and parameter types");
 #else
-    __CPROVER_assert(r->debug_count == 0 && r->import_count == 0, "C10.rt no debug entries, no imports");
+    __CPROVER_assert(r->import_count == 0, "C10.rt no imports");
 #endif
     __CPROVER_assert(r->header.flags == m->header.flags && r->header.entry_point == m->header.entry_point, "C10.rt header flags and entry point");
     VERIF_COVER(r != NULL);
